@@ -746,6 +746,7 @@ def run(ctx):
 
 
 SELFTEST = [
+    ('writer-suffix-rule-differs', 'pyerrors/input/json.py', "    jsonstring = create_json_string(ol, description, indent)\n\n    if not fname.endswith('.json') and not fname.endswith('.gz'):", "    jsonstring = create_json_string(ol, description, indent)\n\n    if '.' not in fname:", 'C11-D6'),
     ('list-flag-after-loop', 'pyerrors/input/json.py', "\n            ret[-1].reweighted = o.get('reweighted', False)\n            ret[-1].tag = taglist[i]\n        return ret", "\n            ret[-1].tag = taglist[i]\n        ret[-1].reweighted = o.get('reweighted', False)\n        return ret", 'C11-D7'),
     ('list-tags-written-only-if-all', 'pyerrors/input/json.py', "        d['type'] = 'List'\n        d['layout'] = '%d' % len(ol)\n        taglist = [o.tag for o in ol]\n        if np.any(", "        d['type'] = 'List'\n        d['layout'] = '%d' % len(ol)\n        taglist = [o.tag for o in ol]\n        if np.all(", 'C11-D3'),
     ('all:benign-tags-builtin-any', 'pyerrors/input/json.py', "        if np.any([tag is not None for tag in taglist]):", "        if any(tag is not None for tag in taglist):", 'BENIGN'),
